@@ -641,13 +641,12 @@ def _plan():
     add("quick", (8, INT, (), 2, False))
     for asz, primary, pre in ((8, SYM, PRE1), (32, INT, PRE2)):
         add("quick", (asz, primary, pre, 2, False))
-    # thorough: depth 4 on four systems (base menu), depth 3 with the extended menu on all six, depth 3 behind six seeded
-    # stores (one search = one process; sized for <= 15 min at load ~130: about 400k transitions)
-    for asz, primary in ((8, SYM), (8, SUM), (32, INT), (32, SUM)):
+    # thorough: depth 4 on three systems (base menu), depth 3 with the extended menu on the three others, depth 3 behind
+    # seven seeded stores (one search = one process; sized for <= 15 min at load ~130: about 350k transitions)
+    for asz, primary in ((8, SYM), (32, INT), (32, SUM)):
         add("thorough", (asz, primary, (), 4, False))
-    for asz in (8, 32):
-        for primary in (INT, SYM, SUM):
-            add("thorough", (asz, primary, (), 3, True))
+    for asz, primary in ((8, INT), (8, SUM), (32, SYM)):
+        add("thorough", (asz, primary, (), 3, True))
     for asz in (8, 32):
         for primary, pre in ((SYM, PRE1), (INT, PRE2), (SUM, PRE3)):
             add("thorough", (asz, primary, pre, 3, False))
